@@ -200,6 +200,8 @@ def build_case(group, base, rnd):
     syms = []
     abstract = []
 
+    locno = [9]
+
     def value_expr():
         v = rnd.choice(VALUES + [rnd.randrange(0x10000)])
         roll = rnd.random()
@@ -249,6 +251,17 @@ def build_case(group, base, rnd):
                 k = 2 - 2 * x
                 ops.append(("br", ("bin", "+", ("dot",), apm.num(k, "d")) if k >= 0 else ("bin", "-", ("dot",), apm.num(-k, "d"))))
         stmts.append(apm.insn(name, *ops))
+        if rnd.random() < 0.05:
+            # a branch / sob to a numeric local label of two or more digits (the name is its spelling, not its value), a few words back
+            locno[0] += 1
+            while any(c in "89" for c in str(locno[0])):
+                locno[0] += 1
+            nm = str(locno[0]) + rnd.choice(["", "", "$"])
+            stmts.append(apm.label(nm))
+            for _ in range(rnd.randrange(0, 3)):
+                stmts.append(apm.insn("nop"))
+            bn = rnd.choice(["br", "bne", "bcs", "sob"])
+            stmts.append(apm.insn(bn, *([("reg", rnd.randrange(6))] if bn == "sob" else []), ("br", ("loc", nm))))
         if rnd.random() < 0.08:
             # the same spelling at several addresses with a location-dependent inline field
             en, mask = rnd.choice([("trap", 0o377), ("emt", 0o377), ("mark", 0o77), ("spl", 7)])
@@ -260,7 +273,8 @@ def build_case(group, base, rnd):
         # a run of the statements as the body of a '.repeat': every copy is a statement of its own, at its own address
         a = rnd.randrange(1, len(stmts) - 25)
         b = a + rnd.randrange(5, 25)
-        stmts[a:b] = [apm.repeat(apm.num(rnd.choice([2, 2, 3])), stmts[a:b])]
+        if not any(st.labels or (st.k == "insn" and any(o[0] == "br" and o[1][0] == "loc" for o in st.ops)) for st in stmts[a:b]):
+            stmts[a:b] = [apm.repeat(apm.num(rnd.choice([2, 2, 3])), stmts[a:b])]
     for name, v in syms:
         stmts.append(apm.assign(name, apm.num(v)))
     layout = rnd.choice(["plain", "plain", "link-last", "included", "included-link-last"])
@@ -279,7 +293,7 @@ def build_case(group, base, rnd):
     f = apm.SrcFile("/c01/main.mac", stmts)
     return {"kind": "prog", "text": apm.r_file(f), "base": base,
             "stmts": [[st.k, getattr(st, "name", None) or getattr(st, "d", None), _json_ops(st)] for st in stmts]} \
-        if not any(st.k == "repeat" for st in stmts) else \
+        if not any(st.k == "repeat" or st.labels for st in stmts) else \
         {"kind": "prog", "layout": "plain+repeat", "prog": apm.to_json(apm.Program([f])), "base": base, "text": apm.r_file(f)}
 
 
